@@ -18,45 +18,60 @@ theorem filter_ne_fresh (k : Key) (ks : List Key) (h : k ∉ ks) : ks.filter (·
   have : a ≠ k := fun e => h (e ▸ ha)
   simpa using this
 
-theorem removeObj_objs_sublist (st : St) (o : Obj) : (removeObj st o).objs.Sublist st.objs := by
-  simp [removeObj]
+theorem removeObj_keys_sublist (st : St) (o : Obj) : (removeObj st o).keys.Sublist st.keys := by
+  simp only [removeObj, St.keys]
+  exact List.Sublist.map _ List.filter_sublist
 
-theorem deleteChild_sublist (rec : St → Obj → St) (hrec : ∀ s co, (rec s co).objs.Sublist s.objs)
-    (s : St) (c : Key) : (deleteChild rec s c).objs.Sublist s.objs := by
+theorem deactivateObj_keys (st : St) (o : Obj) : (deactivateObj st o).keys = st.keys := by
+  simp only [deactivateObj, St.keys, List.map_map]
+  apply List.map_congr_left
+  intro x _
+  simp only [Function.comp]
+  split <;> rfl
+
+theorem finishDelete_keys_sublist (st : St) (o : Obj) (thr : Option Key) :
+    (finishDelete st o thr).1.keys.Sublist st.keys := by
+  unfold finishDelete
+  split
+  · rw [deactivateObj_keys]; exact List.Sublist.refl _
+  · exact removeObj_keys_sublist st o
+
+theorem deleteChild_sublist (rec : St → Obj → St) (hrec : ∀ s co, (rec s co).keys.Sublist s.keys)
+    (s : St) (c : Key) : (deleteChild rec s c).keys.Sublist s.keys := by
   unfold deleteChild
   split
   · exact hrec _ _
   · exact List.Sublist.refl _
 
-theorem foldl_sublist (g : St → Key → St) (hg : ∀ s c, (g s c).objs.Sublist s.objs) (cs : List Key) :
-    ∀ st : St, (cs.foldl g st).objs.Sublist st.objs := by
+theorem foldl_sublist (g : St → Key → St) (hg : ∀ s c, (g s c).keys.Sublist s.keys) (cs : List Key) :
+    ∀ st : St, (cs.foldl g st).keys.Sublist st.keys := by
   induction cs with
   | nil => intro st; exact List.Sublist.refl _
   | cons c cs ih => intro st; exact (ih (g st c)).trans (hg st c)
 
-theorem deleteHelper_sublist : ∀ (f : Nat) (st : St) (o : Obj) (c : Bool) (busy : List Key),
-    (deleteHelper f st o c busy).1.objs.Sublist st.objs := by
+theorem deleteHelper_sublist : ∀ (f : Nat) (st : St) (o : Obj) (c : Bool) (busy : List Key) (thr : Option Key),
+    (deleteHelper f st o c busy thr).1.keys.Sublist st.keys := by
   intro f
   induction f with
-  | zero => intro st o c busy; exact removeObj_objs_sublist st o
+  | zero => intro st o c busy thr; exact finishDelete_keys_sublist st o thr
   | succ f ih =>
-    intro st o c busy
+    intro st o c busy thr
     simp only [deleteHelper]
     split
     · exact List.Sublist.refl _
     · split
       · exact List.Sublist.refl _
-      · refine (removeObj_objs_sublist _ o).trans ?_
-        exact foldl_sublist _ (fun s k => deleteChild_sublist _ (fun s co => ih s co c _) s k) _ st
+      · refine (finishDelete_keys_sublist _ o thr).trans ?_
+        exact foldl_sublist _ (fun s k => deleteChild_sublist _ (fun s co => ih s co c _ thr) s k) _ st
 
-theorem deleteObject_sublist (st : St) (k : Key) (c : Bool) :
-    (deleteObject st k c).1.objs.Sublist st.objs := by
+theorem deleteObject_sublist (st : St) (k : Key) (c : Bool) (thr : Option Key) :
+    (deleteObject st k c thr).1.keys.Sublist st.keys := by
   unfold deleteObject
   split
   · exact List.Sublist.refl _
   · split
     · exact List.Sublist.refl _
-    · exact deleteHelper_sublist _ _ _ _ _
+    · exact deleteHelper_sublist _ _ _ _ _ _
 
 theorem has_false_iff (st : St) (k : Key) : st.has k = false ↔ k ∉ st.keys := by
   simp [St.has, St.keys]
@@ -76,7 +91,7 @@ theorem createObject_keys (st : St) (k : Key) (p : Str) (ps : List Key) (f : Fau
   · simp [hk]
   · have hk' : st.has k = false := by simpa using hk
     by_cases hg : genOk st k g = true
-    · cases f <;> simp [hk', hg, St.keys, List.map_map, Function.comp_def]
+    · cases f <;> simp [hk', hg, St.keys, List.map_map, Function.comp_def, Fault.leftInHostMap]
     · have hg' : genOk st k g = false := by simpa using hg
       cases f <;> simp [hk', hg', St.keys]
 
@@ -105,8 +120,8 @@ theorem step_nodup (st : St) (op : Op) (h : st.keys.Nodup) : (step st op).keys.N
         exact (hfresh a ha).1 hb
     · simp only [step, e]
       exact List.nodup_cons.mpr ⟨(has_false_iff st k).mp hk, h⟩
-  | delete k c =>
-    simp only [step, St.keys]
-    exact ((deleteObject_sublist st k c).map _).nodup h
+  | delete k c t =>
+    simp only [step]
+    exact (deleteObject_sublist st k c t).nodup h
 
 end Icinga.C17
